@@ -91,6 +91,18 @@ def _arith(case):
     v0 = _vals(c, "ctor", X, A, m)
     if v0 is not None:
         c.eq("ctor/value", v0, np.array(xs), 0)
+    # documented alternative constructor forms hold the same values: 6xN array (one value per column), copy of an object
+    ok, X2 = c.lib("ctor/6xN", lambda: getattr(L, A)(np.array(xs, dtype=float).T.copy()) if m > 1 else getattr(L, A)(list(xs[0])))
+    if ok:
+        v = _vals(c, "ctor/6xN", X2, A, m)
+        if v is not None:
+            c.eq("ctor/6xN/value", v, np.array(xs), 0)
+    if m == 1:
+        ok, X3 = c.lib("ctor/copy", lambda: getattr(L, A)(X))
+        if ok:
+            v = _vals(c, "ctor/copy", X3, A, 1)
+            if v is not None:
+                c.eq("ctor/copy/value", v, np.array(xs), 0)
     ok, N = c.lib("neg", lambda: -X)
     if ok:
         v = _vals(c, "neg", N, A, m)
@@ -219,6 +231,12 @@ def _inertia(case):
             if c.true("add/type", type(S) is L.SpatialInertia and len(S) == 1, "I1+I2 gave %s" % type(S).__name__):
                 c.eq("add/value", S.A, want + want2, 1e-9, max(sc, float(np.max(np.abs(want2)))))
         c.eq("add/operand1", SI.A, J, 0)
+        # the default-constructed (massless) inertia is the additive identity
+        ok0, Z = c.lib("ctor/empty", L.SpatialInertia)
+        if ok0:
+            okz, Sz = c.lib("add/zero", lambda: SI + Z)
+            if okz and c.true("add/zero/type", type(Sz) is L.SpatialInertia and len(Sz) == 1, "I + SpatialInertia() gave %s" % type(Sz).__name__):
+                c.eq("add/zero/value", Sz.A, want, 1e-9, sc)
         c.must_raise("add/other", lambda: SI + L.SpatialVelocity(np.ones(6)))
     x = arr(case["x"])
     nx = max(float(np.max(np.abs(x))), 1e-300)
